@@ -127,8 +127,20 @@ def gen_real(rng, i):
     sq = [dyadic(v) for v in s]
     if cc.residual(np.array(fl(sq)), desc) > 1e-9:
       continue
-    return {'kind': 'real', 't': T, 'p': tg.gen_tree_price(rng, T), 's': sq, 'shape': pick(rng, ['flat', 'shaped', 'shaped']),
-            'step': pick(rng, [F(1, 8), F(1, 2), F(1), F(1), F(4)]), 'k': pick(rng, [1, 1, 2, 3])}
+    c = {'kind': 'real', 't': T, 'p': tg.gen_tree_price(rng, T), 's': sq, 'shape': pick(rng, ['flat', 'shaped', 'shaped']),
+         'step': pick(rng, [F(1, 8), F(1, 2), F(1), F(1), F(4)]), 'k': pick(rng, [1, 1, 2, 3])}
+    if i % 4 == 1:
+      # the device has been stepped once with WIDER bounds on one leaf and was re-bounded afterwards (the public setter accepts it):
+      # every later step must respect the bounds the device reports now
+      if T['kind'] == 'leaf':
+        c['late'] = -1
+      elif T['kind'] in ('set', 'subbal'):
+        ks = [j for j, k in enumerate(T['kids']) if k['kind'] == 'leaf' and not k['leaf'].get('cbounds')]
+        if ks:
+          c['late'] = ks[0]
+      if c.get('late') == -1 and T['leaf'].get('cbounds'):
+        c.pop('late')
+    return c
   return None
 
 
@@ -234,8 +246,30 @@ def start_gap(dev, c, s, desc):
   return gap / (1 + abs(float(dev.cost(np.array(s), price))))
 
 
+def build_dev(c):
+  late = c.get('late')
+  if late is None:
+    return tg.build_tree(c['t'])
+  import copy
+  T0 = copy.deepcopy(c['t'])
+  L = T0['leaf'] if late == -1 else T0['kids'][late]['leaf']
+  target = [tuple(b) for b in L['bounds']]
+  L['bounds'] = lg.widen(L['bounds'])
+  for k in ('rebound', 'recb', 'post_set', 'intb'):
+    L.pop(k, None)
+  dev = tg.build_tree(T0)
+  s = np.array(fl(c['s']))
+  try:
+    S().step(dev, tg.py_price(c['p']), s.reshape(dev.shape), float(c['step']))
+  except Exception:
+    pass
+  leaf = dev if late == -1 else dev.devices[late]
+  leaf.bounds = np.array(fl([list(b) for b in target]))
+  return dev
+
+
 def observe(c):
-  dev = tg.build_tree(c['t'])
+  dev = build_dev(c)
   price = tg.py_price(c['p'])
   t = float(c['step'])
   if c['kind'] == 'fault':
@@ -321,6 +355,7 @@ def case_to_json(c):
        'step': core.jsonable(c['step'])}
   if c['kind'] == 'real':
     d['k'] = c['k']
+    d['late'] = c.get('late')
   else:
     d.update({'proj': list(c['proj']), 'z': core.jsonable(c['z']), 'ls': list(c['ls']), 'x': core.jsonable(c['x'])})
   return d
@@ -331,6 +366,8 @@ def case_from_json(j):
        'shape': j['shape'], 'step': F(j['step'])}
   if j['kind'] == 'real':
     c['k'] = int(j['k'])
+    if j.get('late') is not None:
+      c['late'] = int(j['late'])
   else:
     c.update({'proj': (bool(j['proj'][0]), int(j['proj'][1])), 'z': [F(v) for v in j['z']], 'ls': (bool(j['ls'][0]), int(j['ls'][1])),
               'x': [F(v) for v in j['x']]})
@@ -342,7 +379,7 @@ def case_from_json(j):
 # ---------------------------------------------------------------------------------------------------
 def oracle_real(c):
   M = S()
-  dev = tg.build_tree(c['t'])
+  dev = build_dev(c)
   price = tg.py_price(c['p'])
   desc = cc.linear_description(dev)
   s = np.array(fl(c['s']))
